@@ -70,10 +70,17 @@ class Hook:
                 return c13_exc.make(kind, tag)
         return None
 
+    def for_picker(self, out, name):
+        """the `output_picker` of this function raises (for every output it is asked to pick)"""
+        for fname, kind, tag in self.state.get("picker", []):
+            if fname == self.fname:
+                return c13_exc.make(kind, tag)
+        return None
+
 
 def describe_exc(e):
     cause = e.__cause__
-    return {"cls": c13_exc.clsname(e), "args": [terms.enc(a) for a in e.args], "notes": list(getattr(e, "__notes__", []) or []),
+    return {"cls": c13_exc.clsname(e), "args": [c13_exc.enc_arg(a) for a in e.args], "notes": list(getattr(e, "__notes__", []) or []),
             "cause": c13_exc.clsname(cause) if cause is not None else None}
 
 
@@ -93,7 +100,9 @@ def observe_snapshot(snap, base):
         try:
             mapgen.quiet(snap.reproduce)
             o["reproduce"] = "returned"
-        except Exception as e:  # noqa: BLE001
+        except Hang:
+            raise
+        except BaseException as e:  # noqa: BLE001  (a snapshot may hold a BaseException-only class)
             o["reproduce"] = describe_exc(e)
         path = os.path.join(base, f"snap-{os.getpid()}-{id(snap)}.pkl")
         try:
@@ -103,7 +112,9 @@ def observe_snapshot(snap, base):
             try:
                 mapgen.quiet(again.reproduce)
                 r["reproduce"] = "returned"
-            except Exception as e:  # noqa: BLE001
+            except Hang:
+                raise
+            except BaseException as e:  # noqa: BLE001
                 r["reproduce"] = describe_exc(e)
             o["reloaded"] = r
         except Exception as e:  # noqa: BLE001
@@ -114,6 +125,45 @@ def observe_snapshot(snap, base):
     except Exception as e:  # noqa: BLE001
         o["err"] = pfimport.exc_enum(e) + ": " + str(e)[:200]
     return o
+
+
+FRESH_SRC = """
+import sys, json
+sys.path.insert(0, {harness!r})
+import pfimport, io, contextlib
+import c13_exc, c13_worker, terms
+from pipefunc._pipefunc import ErrorSnapshot
+snap = ErrorSnapshot.load_from_file({path!r})
+out = {{"fname": snap.function.__name__, "kwargs": c13_worker.enc_kwargs(snap.kwargs), "exc": c13_worker.describe_exc(snap.exception)}}
+try:
+    with contextlib.redirect_stdout(io.StringIO()):
+        snap.reproduce()
+    out["reproduce"] = "returned"
+except BaseException as e:
+    out["reproduce"] = c13_worker.describe_exc(e)
+print("@@" + json.dumps(out))
+"""
+
+
+def fresh_reproduce(snap, base):
+    """`save_to_file` here, `load_from_file` + `reproduce()` in a FRESH interpreter (nothing of this process survives but the file)."""
+    import subprocess
+    import sys
+    path = os.path.join(base, f"fresh-{os.getpid()}-{id(snap)}.pkl")
+    try:
+        snap.save_to_file(path)
+        src = FRESH_SRC.format(harness=os.path.dirname(os.path.abspath(__file__)), path=path)
+        env = dict(os.environ)
+        r = subprocess.run([sys.executable, "-c", src], capture_output=True, text=True, timeout=60, env=env)
+        for line in r.stdout.splitlines():
+            if line.startswith("@@"):
+                return json.loads(line[2:])
+        return {"err": "no answer from the fresh interpreter", "stderr": r.stderr[-400:]}
+    except Exception as e:  # noqa: BLE001
+        return {"err": pfimport.exc_enum(e) + ": " + str(e)[:200]}
+    finally:
+        if os.path.exists(path):
+            os.unlink(path)
 
 
 def read_calls(log):
@@ -189,8 +239,12 @@ def map_injection(desc, inj, base, n):
     except Exception as e:  # noqa: BLE001
         return {"construct_err": pfimport.exc_enum(e), "msg": str(e)[:200]}
     steps = [inj] + ([inj["then"]] if inj.get("then") else [])
+    for f in p.functions:                         # a raising `output_picker` (user code that is not the wrapped function)
+        if any(t[0] == f.__name__ for s in steps for t in s.get("picker", [])):
+            f._output_picker = c13_exc.RaisingPicker(list(f.output_name), hooks[f.__name__])
     for step in steps:
         state["targets"] = step["targets"]
+        state["picker"] = step.get("picker", [])
         log.clear()
         obs = {}
         storage = step.get("storage", inj.get("storage", "file_array"))
@@ -215,6 +269,26 @@ def map_injection(desc, inj, base, n):
                             except Exception as e:  # noqa: BLE001
                                 loaded[o] = {"err": pfimport.exc_enum(e), "msg": str(e)[:120]}
                     obs["loaded"] = loaded
+                if step.get("fresh") and obs.get("snap_pipeline") is not None and p.error_snapshot is not None:
+                    obs["fresh"] = fresh_reproduce(p.error_snapshot, base)
+                if step.get("resume") and folder is not None and obs["outcome"] == "raised":
+                    # the re-run on the folder the failed run left: nothing raises, `cleanup=False`, sequential
+                    state["targets"], state["picker"] = [], []
+                    log.clear()
+                    robs = {}
+                    inputs, ish = mapgen.py_inputs(desc), mapgen.internal_shapes_arg(desc)
+                    _guarded(lambda: mapgen.quiet(p.map, inputs, run_folder=folder, internal_shapes=ish, parallel=False,
+                                                  storage="file_array", cleanup=False), robs)
+                    robs["calls"] = read_calls(log)
+                    from pipefunc.map import load_outputs
+                    robs["loaded"] = {}
+                    for f in desc["funcs"]:
+                        for o in f["outputs"]:
+                            try:
+                                robs["loaded"][o] = terms.enc(mapgen.quiet(load_outputs, o, run_folder=folder))
+                            except Exception as e:  # noqa: BLE001
+                                robs["loaded"][o] = {"err": pfimport.exc_enum(e), "msg": str(e)[:120]}
+                    obs["resume"] = robs
         finally:
             if folder:
                 shutil.rmtree(folder, ignore_errors=True)
@@ -246,8 +320,28 @@ def call_injection(desc, inj, base, n):
         kw = {k: terms.dec(v) for k, v in step["kw"]}
         entry = step.get("entry", "call")
 
+        q = p
+        variant_err = None
+        try:
+            if entry == "scope":                  # every input and output under the scope "s": called with the scoped names
+                q = p.copy()
+                q.update_scope("s", inputs="*", outputs="*")
+            elif entry == "nested":               # all functions nested into one NestedPipeFunc
+                q = p.copy()
+                q.nest_funcs("*", tuple(step["nest_out"]))
+            elif entry == "nested_rest":          # every function but the failing one nested: the NestedPipeFunc itself never fails
+                q = p.copy()
+                q.nest_funcs(set(step["nest_out"]))
+        except Exception as e:  # noqa: BLE001
+            variant_err = pfimport.exc_enum(e) + ": " + str(e)[:200]
+
         def call():
-            if entry == "call":
+            if entry == "scope":
+                so = "s." + o if isinstance(o, str) else tuple("s." + x for x in o)
+                pipegen.quiet(q, so, **{"s." + k: v for k, v in kw.items()})
+            elif entry in ("nested", "nested_rest"):
+                pipegen.quiet(q, o, **kw)
+            elif entry == "call":
                 pipegen.quiet(p, o, **kw)
             elif entry == "run":
                 pipegen.quiet(p.run, o, kwargs=kw)
@@ -258,11 +352,21 @@ def call_injection(desc, inj, base, n):
             else:
                 raise AssertionError(entry)
 
-        _guarded(call, obs)
+        if variant_err is None:
+            _guarded(call, obs)
+        else:
+            obs["outcome"] = "variant_err"
+            obs["msg"] = variant_err
         obs["calls"] = read_calls(log)
-        if obs["outcome"] != "hang":
-            obs["snap_pipeline"] = observe_snapshot(p.error_snapshot, base)
-            obs["snap_func"] = {f.__name__: observe_snapshot(f.error_snapshot, base) for f in p.functions if f.error_snapshot is not None}
+        if obs["outcome"] not in ("hang", "variant_err"):
+            try:
+                obs["snap_pipeline"] = observe_snapshot(q.error_snapshot, base)
+                obs["snap_func"] = {f.__name__: observe_snapshot(f.error_snapshot, base) for f in q.functions
+                                    if getattr(f, "error_snapshot", None) is not None}
+                if step.get("fresh") and q.error_snapshot is not None:
+                    obs["fresh"] = fresh_reproduce(q.error_snapshot, base)
+            except Exception as e:  # noqa: BLE001
+                obs["snap_err"] = pfimport.exc_enum(e) + ": " + str(e)[:200]
         out["runs"].append(obs)
         if obs["outcome"] == "hang":
             break
